@@ -170,6 +170,35 @@ def run(prop, tier):
     if not samples and observed:
         o = observed[0]
         samples.append({"abstract": sel[o["i"]], "concretisation": o.get("conc"), "observed_result": o["hist"][-1]["result"]})
+    extra_notes = []
+    if prop == "C03":
+        # the built-in localization adapter (C03: "falling back from region to language to the default locale"): Builtins.tla
+        b = vlib.run_tlc("MC_Builtins", "MC_Builtins.cfg", wd, workers=1, timeout=600)
+        if not b.ok:
+            raise vlib.ToolError("TLC reports %s on MC_Builtins.cfg (specification error):\n%s" % (b.violated, b.output[-2000:]))
+        cases = b.marked["REPLAY"]
+        binp, boutp = os.path.join(wd, "builtins.ndjson"), os.path.join(wd, "builtins_obs.ndjson")
+        vlib.write_ndjson(binp, cases)
+        vlib.run_bin(hx, ["builtins", "--in", binp, "--out", boutp], timeout=600)
+        bobs = vlib.read_ndjson(boutp)
+        bt = vlib.run_tlc("Trace_Builtins", "Trace_Builtins.cfg", wd, workers=1, timeout=600, markers=("FAIL", "NOTCONSUMED"),
+                          env_extra={"TRACE": boutp}, java_opts=["-Xss1g", "-Dtlc2.tool.queue.IStateQueue=StateDeque"])
+        if not bt.ok or bt.marked["NOTCONSUMED"] or bt.distinct != len(bobs) + 1:
+            raise vlib.ToolError("Trace_Builtins did not consume all %d records:\n%s" % (len(bobs), bt.output[-2000:]))
+        nstat = 0
+        for f in bt.marked["FAIL"]:
+            o = bobs[f["line"] - 1]
+            c = o["case"]
+            if o["kind"] == "loc":
+                rep.violation("C03 C03_LocaleFallbackChain [requested=%s default=%s tables=%s key=%s]" % ("_".join(c["requested"]) or "none", "_".join(c["default"]),
+                              ",".join(sorted("_".join(t) for t in c["tables"])), c["key"]), {"failing_clauses": ["B_LocalizedFromTable"], "case": c, "observed": o["got"]})
+            else:
+                nstat += 1
+        if nstat:
+            print("NOTE: %d FixedStatus protocol-negotiation cases differ from Builtins.tla (outside C03's statement)" % nstat)
+        states += b.distinct + bt.distinct
+        transitions += b.generated + bt.generated
+        extra_notes.append("MC_Builtins + Trace_Builtins: %d localization/status cases of the built-in adapters judged" % len(bobs))
     rc = rep.finish()
     if drift:
         print("NOTE model-drift: %d of %d replays differ from the precise model Conn.tla (the property-level verdict above is what counts)" % (drift, len(observed)))
@@ -184,7 +213,7 @@ def run(prop, tier):
                 "recorded history is judged by TLC against spec/ConnProps.tla (Trace_ConnProps); non-trivial = the behaviour contains the events "
                 "the property talks about; distinct = distinct abstract histories",
         "exhaustive": True,
-        "tlc": tlc_notes + ["Trace_ConnProps: %d records judged in %.1fs" % (len(observed), tr.wall)],
+        "tlc": tlc_notes + ["Trace_ConnProps: %d records judged in %.1fs" % (len(observed), tr.wall)] + extra_notes,
         "replays_identical_to_precise_model": exact,
         "replays_with_model_drift": drift,
         "known_findings_hit": {k: n for k, (_, n) in rep.known_hit.items()},
